@@ -110,6 +110,7 @@ T = [
     ("nam", "NAM", "TEST", "none", None),
     ("end", "END", "", "none", None),
     ("end.lbl", "END", "{L}", "none", None),
+    ("end.lbl+1", "END", "{L}+1", "none", None),
 ]
 TAGS = {t[0]: t for t in T}
 CORE = ["inh1", "inh.swi", "imm8", "imm16.p", "dir", "ext", "ext.lbl", "imm.lbl", "idx.off5", "idx.off8n", "idx.off16",
